@@ -27,6 +27,7 @@ void (*volatile myth_verif_worker_fn)(int, unsigned int *) = 0;
 void (*volatile myth_verif_alloc_fn)(int, void *, size_t, int) = 0;
 void (*volatile myth_verif_free_fn)(int, void *, size_t, int) = 0;
 int  (*volatile myth_verif_clock_fn)(struct timespec *) = 0;
+void (*volatile myth_verif_qop_fn)(void *, int) = 0;
 #endif
 
 __thread uint64_t g_myth_flmalloc_cycles = 0, g_myth_flmalloc_cnt = 0;
